@@ -281,7 +281,7 @@ def check_property(prop: str, tier: str, seed: int) -> int:
         elif bad:
             for pat, line in bad:
                 violations.append({"obligation": "%s/frame/%s" % (prop, os.path.basename(fs["file"])), "kind": "frame", "message": fs["message"],
-                                   "clause_or_statement": "`%s` at %s:%d is outside %s" % (pat, fs["file"], line, ", ".join(fs["allowed_units"])),
+                                   "clause_or_statement": "`%s` at %s:%d is outside %s" % (pat, fs["file"], line, ", ".join(fs["allowed_units"]) or "every place where it is allowed (none in this file)"),
                                    "related": [], "unit": None, "function": None, "source": {"file": fs["file"], "line": line}, "backend": "frame-scan",
                                    "verifier_output": "token sequence `%s` found at %s:%d" % (pat, fs["file"], line), "counterexample": None, "location_text": src_txt.split("\n")[line - 1].strip()})
         else:
